@@ -918,6 +918,15 @@ func (e *Engine) evalBin(ctx *EvalCtx, x *Expr) (Val, error) {
 	case "++":
 		return Val{T: types.Typ[types.String], S: fmt.Sprintf("(scat %s %s)", a.S, b.S)}, nil
 	}
+	if sa == "Str" && (op == "<" || op == "<=" || op == ">" || op == ">=") {
+		tok := map[string]token.Token{"<": token.LSS, "<=": token.LEQ, ">": token.GTR, ">=": token.GEQ}[op]
+		at := a
+		if at.T == nil {
+			at.T = types.Typ[types.String]
+		}
+		v := e.binop(nil, ctx.st, tok, at, b, types.Typ[types.Bool], token.NoPos)
+		return boolVal(v.S), nil
+	}
 	isBV := strings.HasPrefix(sa, "(_ BitVec")
 	isFP := sa == fp64 || sa == fp32
 	unsigned := false
@@ -1289,6 +1298,13 @@ func (e *Engine) evalCall(ctx *EvalCtx, x *Expr) (Val, error) {
 			return vs[0].Tuple[idx], nil
 		}
 		return Val{}, fmt.Errorf("%s needs a tuple", name)
+	case "since":
+		// time elapsed since t on the ghost clock, at this program point (no advance)
+		vs, err := args()
+		if err != nil {
+			return Val{}, err
+		}
+		return Val{T: types.Typ[types.Int], S: fmt.Sprintf("(- %s %s)", e.clockNow(ctx.st), e.timeUnix(vs[0]))}, nil
 	case "getenv":
 		vs, err := args()
 		if err != nil {
@@ -1341,6 +1357,27 @@ func (e *Engine) evalCall(ctx *EvalCtx, x *Expr) (Val, error) {
 			return Val{}, err
 		}
 		return Val{T: types.Typ[types.Uint64], S: e.float64bits(vs[0].S)}, nil
+	}
+	if fvv, err := e.evalIdent(ctx, name); err == nil && fvv.T != nil {
+		if sig, ok := fvv.T.Underlying().(*types.Signature); ok && fvv.S != "" {
+			// application of a function value: the same deterministic uninterpreted application as at call sites
+			vs, err := args()
+			if err != nil {
+				return Val{}, err
+			}
+			for i := range vs {
+				if i < sig.Params().Len() {
+					_, a := e.coerceInts(Val{T: sig.Params().At(i).Type()}, vs[i])
+					a.T = sig.Params().At(i).Type()
+					vs[i] = a
+				}
+			}
+			var rt types.Type = sig.Results()
+			if sig.Results().Len() == 1 {
+				rt = sig.Results().At(0).Type()
+			}
+			return e.applyFuncValue(fvv, vs, rt, ctx.st)
+		}
 	}
 	if sf := e.findSpec(ctx, name); sf != nil {
 		vs, err := args()
